@@ -384,7 +384,8 @@ pub fn minimize(start_fen: &str, trace: &[Op], prop: u32, v: &Violation) -> Resu
             Some(f) => f,
             None => continue,
         };
-        if fen == start {
+        if fen == start || Pos::from_fen(&fen).and_then(|p| admit(&p)).is_none() {
+            // (a position the gate of the tree under test does not admit is simply not a candidate)
             continue;
         }
         let suffix = cur[cut..].to_vec();
